@@ -362,12 +362,15 @@ def report_solve(ctx, fam, key, rec):
                            f"{rec} -> {k2}")
     n = len(m)
     draws = [list(script[k:k + 2]) for k in range(0, len(script), 2)]
+    got = trace[at] if at < len(trace) else None
+    exact = "n/a"
+    if isinstance(got, tuple) and M.is_permutation(got[0], n):
+        exact = M.tour_length_exact(m, got[0])
     ctx.violation(
         f"{algo}.solve|{KIND[kind]}|{mc}",
         f"{KIND[kind]}: {algo.upper()} solve() on n={n} matrix={m} start "
         f"tour={list(start)} draws={draws}: hand-over #{at} (0 = initial "
-        f"evaluation) was {trace[at] if at < len(trace) else None}, exact "
-        f"length of that x = {M.tour_length_exact(m, trace[at][0]) if at < len(trace) and isinstance(trace[at], tuple) and M.is_permutation(trace[at][0], n) else 'n/a'}, "  # noqa
+        f"evaluation) was {got}, exact length of that x = {exact}, "
         f"upper bound={sum(max(r) for r in m)}; "
         f"reference model sequence={mt}",
         {"engine": "solve", "algo": algo, "matrix": m, "start": list(start),
@@ -857,7 +860,8 @@ def report_kernel(ctx, fam, algo, b):
     exact = M.tour_length_exact(m, x2) if M.is_permutation(x2, n) else "n/a"
     ctx.violation(
         f"{algo}-kernel|{KIND[kind]}|{mc}",
-        f"{KIND[kind]}: {'rev_if_not_worse' if algo == 'ea' else 'rev_if_h_not_worse'}"  # noqa
+        f"{KIND[kind]}: "
+        f"{'rev_if_not_worse' if algo == 'ea' else 'rev_if_h_not_worse'}"
         f"(i={i}, j={j}) on n={n} matrix={m} x={p} y={y}{tab}: x after={x2}"
         f" returned={y2} exact length of x after={exact} upper bound="
         f"{sum(max(r) for r in m)}",
@@ -990,22 +994,24 @@ def run(ctx: Ctx) -> None:
     tot_runs = 0
     tot_agree = 0
     if quick:
-        plan = [(f4, 2, None, True), (f4b, 3, None, False),
-                (f5, 2, 64, True)]
+        plan = [(f4, 2, None, True, ALGOS), (f4b, 3, None, False, ALGOS),
+                (f5, 2, 64, True, ALGOS)]
         ctx.cap("quick, solve(): 3 loop iterations only on the 64 4-city "
                 "matrices over {1,2}; 5 cities only on the first 64 "
                 "matrices, 2 iterations")
     else:
-        plan = [(f4, 3, None, True), (f4b, 4, None, False),
-                (f4z, 3, None, False), (e8, 2, None, False),
-                (f5, 2, None, True), (f5, 3, 16, False),
-                (("met6", 1, 3), 2, None, False), (e16s, 3, None, False),
-                (big, 3, None, False)]
+        # (the FEA needs a table of upper bound + 1 entries: no huge values)
+        plan = [(f4, 3, None, True, ALGOS), (f4b, 4, None, False, ALGOS),
+                (f4z, 3, None, False, ALGOS), (e8, 2, None, False, ALGOS),
+                (f5, 2, None, True, ALGOS), (f5, 3, 16, False, ALGOS),
+                (("met6", 1, 3), 2, None, False, ALGOS),
+                (e16s, 3, None, False, ALGOS),
+                (big, 3, None, False, ("ea",))]
         ctx.cap("solve(): 4 loop iterations only on the 64 4-city matrices "
                 "over {1,2}; 5 cities: 3 iterations on the first 16 "
                 "matrices; 6 cities: 8 matrices, 2 iterations")
-    for fam, depth, hi, short in plan:
-        r, a = _solve(ctx, fam, depth, 0, hi, ALGOS, short)
+    for fam, depth, hi, short, algos in plan:
+        r, a = _solve(ctx, fam, depth, 0, hi, algos, short)
         tot_runs += r
         tot_agree += a
     classes = 0
